@@ -273,11 +273,14 @@ def certload (input implOut : Json) : Option (Json × Bool) := do
     | some p =>
       let root := if p.version == 1 then "s:root" else "s:sgx_root"
       let verdicts := (Spec.CertOps.validateAll root p.elems p.targets (input.get? "links") none).getD (.str "no-verdict")
+      -- what `save_to_jsonfile` writes and `from_jsonfile` reads back: the element dict (one entry per
+      -- name, in order of first insertion, last value), validated again
+      let saved := Cert.savedElems p.elems
+      let verdicts2 := (Spec.CertOps.validateAll root saved p.targets (input.get? "links") none).getD (.str "no-verdict")
       .obj [("targets", .arr (p.targets.map Json.str)),
-            -- the element dict: one entry per name, in order of first insertion, last value
-            ("elements", .arr ((p.elems.map (·.name)).eraseDups.filterMap fun n =>
-              (Cert.lookup p.elems n).map fun e => .arr [.str e.name, .str e.signedBy])),
-            ("verdicts", verdicts), ("roundtrip", .str "same")]
+            ("elements", .arr (saved.map fun e => .arr [.str e.name, .str e.signedBy])),
+            ("verdicts", verdicts),
+            ("roundtrip", .str (if verdicts2.normalize == verdicts.normalize then "same" else "differs"))]
   pure (model, model.normalize == implOut.normalize)
 
 /-- C08: the verify commands.  The certificate verdicts come from the chain model with the
